@@ -76,9 +76,12 @@ ClauseName(e) ==
     [] e.ev = "ptrace" -> "TraceOK"
     [] e.ev = "tensor" -> "TensorOK"
 
+\* "same": the tableau the caller still holds (the source a working tableau was built from with the array constructor, or
+\* its sibling) observed after an operation on the OTHER object - it must be exactly what it was (star traces only)
 Verdict(G, e) ==
   LET o == e.post IN
-  IF ~ArgsOK(G, e) THEN "HarnessBadArgs"
+  IF e.ev = "same" THEN (IF o = Traces[tid].init THEN "ok" ELSE "SourceUnchanged")
+  ELSE IF ~ArgsOK(G, e) THEN "HarnessBadArgs"
   ELSE IF o.err # "" THEN "Raised"
   ELSE LET c == TClause(o) IN
     IF c # "ok" THEN c
@@ -107,7 +110,7 @@ Next ==
 TraceSpec == Init /\ [][Next]_vars
 
 Cause == IF l = 1 THEN "init" ELSE LET e == Events(tid)[l - 1] IN
-           IF e.ev \in {"g1", "g2"} THEN e.g ELSE e.ev
+           IF e.ev \in {"g1", "g2"} THEN e.g ELSE IF e.ev = "same" THEN e.after ELSE e.ev
 
 Report ==
   /\ (why # "ok") => PrintT(<<"REJECT", Traces[tid].tid, l - 1, why, Cause>>)
